@@ -260,9 +260,27 @@ func genSequence(r *kit.Rng, n int, s *kit.Summary) []res {
 	nm, nu, nc, ne := 1+r.Pick(len(methods)), 1+r.Pick(len(urls)), 1+r.Pick(len(codes)), 1+r.Pick(len(messages))
 	errMode := r.Pick(4)
 	latMode := r.Pick(4)
+	// label sets whose method+url+status texts coincide when written back to back (a cache keyed on
+	// the concatenation, or on a hash of it without separators, would merge them)
+	collide := r.Chance(0.4)
+	type lab struct {
+		m, u string
+		c    uint16
+	}
+	var family []lab
+	if collide {
+		base := r.PickStr([]string{"http://api.test/items/", "http://h/", "http://localhost:8080/v"})
+		family = []lab{{"GET", base, 200}, {"GET", base + "20", 0}, {"GET", base + "2", 0}, {"GET", base + "5", 3}, {"GET", base, 53},
+			{"GE", "T" + base, 200}, {"GETh", base[1:], 200}, {"GET", base + "40", 4}, {"GET", base + "4", 404}, {"GET", base, 4044}}
+		s.Count("labels:colliding_family")
+	}
 	out := make([]res, n)
 	for i := range out {
 		x := res{Method: methods[r.Pick(nm)], URL: urls[r.Pick(nu)], Code: codes[r.Pick(nc)]}
+		if collide && r.Chance(0.7) {
+			l := family[r.Pick(len(family))]
+			x.Method, x.URL, x.Code = l.m, l.u, l.c
+		}
 		switch r.Pick(5) {
 		case 0:
 		case 1:
